@@ -2,13 +2,13 @@ package absint
 
 import (
 	"fmt"
-	"os"
-	"time"
 	"go/constant"
 	"go/token"
 	"go/types"
+	"os"
 	"sort"
 	"strings"
+	"time"
 
 	"golang.org/x/tools/go/ssa"
 )
@@ -53,9 +53,9 @@ type State struct {
 	Heap   map[string]Value
 	PC     map[string]uint16 // atom -> still-possible outcomes
 	Gens   map[string]int
-	Obs    string   // observer state (rule-defined, part of the memo key)
-	Trace  []string // diagnostic trail of events (not part of the memo key)
-	Path   []string // decisions taken (diagnostic)
+	Obs    string            // observer state (rule-defined, part of the memo key)
+	Trace  []string          // diagnostic trail of events (not part of the memo key)
+	Path   []string          // decisions taken (diagnostic)
 	Data   map[string]string // rule-defined scratch (part of the memo key)
 }
 
@@ -212,7 +212,7 @@ type Hooks struct {
 	BackEdge  func(x *Exec, s *State, f *Frame, header *ssa.BasicBlock) // a loop iteration of frame f ended
 	// Decide is told every time a branch narrows an atom (outs = outcomes still possible).
 	Decide func(x *Exec, s *State, atom string, outs []string)
-	Instr     func(x *Exec, s *State, in ssa.Instruction)
+	Instr  func(x *Exec, s *State, in ssa.Instruction)
 }
 
 type Exec struct {
@@ -221,8 +221,8 @@ type Exec struct {
 	MaxDepth  int
 	MaxStates int
 	MaxWall   time.Duration // wall-clock budget of one Run (0 = none)
-	Unroll    int // loop iterations explored exactly before the loop head is widened
-	Widen     bool // generalise everything a loop changed in one step (faster, coarser) instead of joining arrivals
+	Unroll    int           // loop iterations explored exactly before the loop head is widened
+	Widen     bool          // generalise everything a loop changed in one step (faster, coarser) instead of joining arrivals
 	Hooks     Hooks
 	Debug     func(pos, key string)
 	KeepSyms  map[string]bool // symbols whose facts are never pruned (root parameters)
@@ -247,11 +247,223 @@ type Exec struct {
 	terms   []Terminal
 	termKey map[string]bool
 	work    []*State
+	tables  map[*ssa.Global]map[string]Value
+	arrays  map[*ssa.Global]map[int64]Value
+	globals map[string]*ssa.Global
 }
 
 func New(prog *ssa.Program, inScope func(*ssa.Function) bool) *Exec {
 	return &Exec{Prog: prog, InScope: inScope, MaxDepth: 5, MaxStates: 200000, MaxWall: 45 * time.Second, Unroll: 1,
 		domains: map[string][]string{}, locID: map[string]string{}, LocOf: map[string]string{}, live: map[*ssa.Function]map[*ssa.BasicBlock]map[ssa.Value]bool{}}
+}
+
+// constTable returns the contents of a package-level map that is built in the
+// package initialiser from constant keys and values only and is neither
+// reassigned nor updated anywhere in its package; nil otherwise.
+func (x *Exec) constTable(g *ssa.Global) map[string]Value {
+	if x.tables == nil {
+		x.tables = map[*ssa.Global]map[string]Value{}
+	}
+	if t, ok := x.tables[g]; ok {
+		return t
+	}
+	x.tables[g] = nil
+	if g.Pkg == nil {
+		return nil
+	}
+	if _, isMap := g.Type().(*types.Pointer).Elem().Underlying().(*types.Map); !isMap {
+		return nil
+	}
+	var mk *ssa.MakeMap
+	stores := 0
+	var fns []*ssa.Function
+	var collect func(fn *ssa.Function)
+	collect = func(fn *ssa.Function) {
+		fns = append(fns, fn)
+		for _, a := range fn.AnonFuncs {
+			collect(a)
+		}
+	}
+	for _, m := range g.Pkg.Members {
+		switch m := m.(type) {
+		case *ssa.Function:
+			collect(m)
+		case *ssa.Type:
+			for _, t := range []types.Type{m.Type(), types.NewPointer(m.Type())} {
+				ms := g.Pkg.Prog.MethodSets.MethodSet(t)
+				for i := 0; i < ms.Len(); i++ {
+					if fn := g.Pkg.Prog.MethodValue(ms.At(i)); fn != nil && fn.Pkg == g.Pkg {
+						collect(fn)
+					}
+				}
+			}
+		}
+	}
+	for _, fn := range fns {
+		for _, b := range fn.Blocks {
+			for _, in := range b.Instrs {
+				switch in := in.(type) {
+				case *ssa.Store:
+					if in.Addr == ssa.Value(g) {
+						stores++
+						if m, ok := in.Val.(*ssa.MakeMap); ok && fn.Name() == "init" {
+							mk = m
+						}
+					}
+				case *ssa.MapUpdate:
+					if ld, ok := in.Map.(*ssa.UnOp); ok && ld.X == ssa.Value(g) {
+						return nil
+					}
+				}
+			}
+		}
+	}
+	if mk == nil || stores != 1 {
+		return nil
+	}
+	tab := map[string]Value{}
+	for _, r := range *mk.Referrers() {
+		switch r := r.(type) {
+		case *ssa.MapUpdate:
+			kc, ok1 := r.Key.(*ssa.Const)
+			vc, ok2 := r.Value.(*ssa.Const)
+			if !ok1 || !ok2 || kc.Value == nil || vc.Value == nil {
+				return nil
+			}
+			tab[kc.Value.ExactString()] = Const{V: vc.Value}
+		case *ssa.Store:
+			if r.Addr != ssa.Value(g) {
+				return nil
+			}
+		case *ssa.DebugRef:
+		default:
+			return nil
+		}
+	}
+	x.tables[g] = tab
+	return tab
+}
+
+// ConstArray returns the non-zero entries of the package-level array stored at
+// the location "G:<name>" when the array is a composite literal of constants
+// assigned in the package initialiser and written nowhere else; nil otherwise.
+func (x *Exec) ConstArray(loc string) map[int64]Value {
+	g := x.globals[strings.TrimPrefix(loc, "G:")]
+	if g == nil || g.Pkg == nil {
+		return nil
+	}
+	if x.arrays == nil {
+		x.arrays = map[*ssa.Global]map[int64]Value{}
+	}
+	if t, ok := x.arrays[g]; ok {
+		return t
+	}
+	x.arrays[g] = nil
+	if _, isArr := g.Type().(*types.Pointer).Elem().Underlying().(*types.Array); !isArr {
+		return nil
+	}
+	var lit *ssa.Alloc
+	stores := 0
+	direct := map[int64]Value{} // elements assigned one by one in the initialiser
+	var fns []*ssa.Function
+	var collect func(fn *ssa.Function)
+	collect = func(fn *ssa.Function) {
+		fns = append(fns, fn)
+		for _, a := range fn.AnonFuncs {
+			collect(a)
+		}
+	}
+	for _, m := range g.Pkg.Members {
+		switch m := m.(type) {
+		case *ssa.Function:
+			collect(m)
+		case *ssa.Type:
+			for _, t := range []types.Type{m.Type(), types.NewPointer(m.Type())} {
+				ms := g.Pkg.Prog.MethodSets.MethodSet(t)
+				for i := 0; i < ms.Len(); i++ {
+					if fn := g.Pkg.Prog.MethodValue(ms.At(i)); fn != nil && fn.Pkg == g.Pkg {
+						collect(fn)
+					}
+				}
+			}
+		}
+	}
+	for _, fn := range fns {
+		for _, b := range fn.Blocks {
+			for _, in := range b.Instrs {
+				st, ok := in.(*ssa.Store)
+				if !ok {
+					continue
+				}
+				if st.Addr == ssa.Value(g) {
+					stores++
+					if ld, ok := st.Val.(*ssa.UnOp); ok && ld.Op == token.MUL && fn.Name() == "init" {
+						lit, _ = ld.X.(*ssa.Alloc)
+					}
+				}
+				if ia, ok := st.Addr.(*ssa.IndexAddr); ok && ia.X == ssa.Value(g) {
+					ic, okI := ia.Index.(*ssa.Const)
+					vc, okV := st.Val.(*ssa.Const)
+					if fn.Name() != "init" || !okI || !okV || ic.Value == nil || vc.Value == nil {
+						return nil // an element is assigned while the program runs
+					}
+					direct[ic.Int64()] = Const{V: vc.Value}
+				}
+			}
+		}
+	}
+	if lit == nil && stores == 0 && len(direct) > 0 {
+		x.arrays[g] = direct
+		return direct
+	}
+	if lit == nil || stores != 1 || len(direct) > 0 {
+		return nil
+	}
+	tab := map[int64]Value{}
+	for _, r := range *lit.Referrers() {
+		switch r := r.(type) {
+		case *ssa.IndexAddr:
+			ic, ok := r.Index.(*ssa.Const)
+			if !ok || ic.Value == nil {
+				return nil
+			}
+			for _, rr := range *r.Referrers() {
+				if _, isDbg := rr.(*ssa.DebugRef); isDbg {
+					continue
+				}
+				st, ok := rr.(*ssa.Store)
+				if !ok {
+					return nil
+				}
+				vc, ok := st.Val.(*ssa.Const)
+				if !ok || vc.Value == nil {
+					return nil
+				}
+				tab[ic.Int64()] = Const{V: vc.Value}
+			}
+		case *ssa.UnOp, *ssa.DebugRef:
+		default:
+			return nil
+		}
+	}
+	x.arrays[g] = tab
+	return tab
+}
+
+func zeroConst(t types.Type) Value {
+	if b, ok := t.Underlying().(*types.Basic); ok {
+		switch {
+		case b.Info()&types.IsString != 0:
+			return Const{V: constant.MakeString("")}
+		case b.Info()&types.IsBoolean != 0:
+			return Const{V: constant.MakeBool(false)}
+		case b.Info()&types.IsInteger != 0:
+			return Const{V: constant.MakeInt64(0)}
+		case b.Info()&types.IsFloat != 0:
+			return Const{V: constant.MakeFloat64(0)}
+		}
+	}
+	return Top{}
 }
 
 func (x *Exec) problem(format string, a ...interface{}) {
@@ -557,7 +769,9 @@ func siteName(f *Frame, in ssa.Instruction) string {
 func CleanName(name string) string {
 	var sb strings.Builder
 	// drop directory parts of import paths
-	parts := strings.FieldsFunc(name, func(r rune) bool { return r == '(' || r == ')' || r == '*' || r == ',' || r == ' ' || r == '[' || r == ']' || r == '{' || r == '}' || r == '|' || r == ';' || r == '=' })
+	parts := strings.FieldsFunc(name, func(r rune) bool {
+		return r == '(' || r == ')' || r == '*' || r == ',' || r == ' ' || r == '[' || r == ']' || r == '{' || r == '}' || r == '|' || r == ';' || r == '='
+	})
 	for _, p := range parts {
 		if i := strings.LastIndexByte(p, '/'); i >= 0 {
 			p = p[i+1:]
@@ -688,7 +902,7 @@ func (x *Exec) storeLoc(s *State, loc string, v Value) {
 
 // Load and Store give rules access to the abstract heap (used by call stubs).
 func (x *Exec) Load(s *State, p Value, t types.Type) Value { return x.load(s, p, t) }
-func (x *Exec) Store(s *State, p Value, v Value)            { x.store(s, p, v) }
+func (x *Exec) Store(s *State, p Value, v Value)           { x.store(s, p, v) }
 
 // Fresh returns a new opaque symbol for a definition site.
 func (x *Exec) Fresh(s *State, site string) Value { return x.fresh(s, site) }
@@ -752,6 +966,10 @@ func (x *Exec) val(s *State, f *Frame, v ssa.Value) Value {
 	case *ssa.Function:
 		return &Closure{Fn: v}
 	case *ssa.Global:
+		if x.globals == nil {
+			x.globals = map[string]*ssa.Global{}
+		}
+		x.globals[v.String()] = v
 		return Ptr{Loc: "G:" + v.String()}
 	case *ssa.Builtin:
 		return Sym{Name: "builtin:" + v.Name()}
@@ -1750,7 +1968,7 @@ func pureExternal(name string) bool {
 		"(time.Time).Equal", "(time.Time).After", "(time.Time).Before", "(time.Time).AddDate", "(time.Time).Add",
 		"(time.Time).Local", "(time.Time).UTC", "(time.Time).Format", "(time.Time).IsZero", "(time.Time).Sub",
 		"(time.Time).Year", "(time.Time).Month", "(time.Time).Day", "(time.Time).Location", "(time.Time).Date", "strconv.FormatFloat", "time.Date", "time.Parse",
-		"(time.Duration).Hours", "regexp.MatchString", "sort.Strings", "sort.Sort", "sort.Stable",
+		"(time.Duration).Hours", "regexp.MatchString", "regexp.Compile", "regexp.CompilePOSIX", "(*regexp.Regexp).MatchString", "(*regexp.Regexp).Match", "sort.Strings", "sort.Sort", "sort.Stable",
 		"github.com/aquilax/truncate.Truncate", "(*os.File).Close", "os.Stat":
 		return true
 	}
@@ -1927,6 +2145,25 @@ func (x *Exec) step(s *State, f *Frame, in ssa.Instruction) bool {
 		f.Env[in] = NewTerm("index", x.val(s, f, in.X), x.val(s, f, in.Index))
 	case *ssa.Lookup:
 		m, k := x.val(s, f, in.X), x.val(s, f, in.Index)
+		if kc, isConst := k.(Const); isConst && kc.V != nil {
+			if ld, ok := in.X.(*ssa.UnOp); ok && ld.Op == token.MUL {
+				if g, ok := ld.X.(*ssa.Global); ok {
+					if tab := x.constTable(g); tab != nil {
+						// a package-level lookup table that is filled from constants in init and never written again
+						ev, found := tab[kc.V.ExactString()]
+						if !found {
+							ev = zeroConst(in.X.Type().Underlying().(*types.Map).Elem())
+						}
+						if in.CommaOk {
+							f.Env[in] = &Tuple{Elems: []Value{ev, Const{V: constant.MakeBool(found)}}}
+						} else {
+							f.Env[in] = ev
+						}
+						break
+					}
+				}
+			}
+		}
 		v := NewTerm("lookup", m, k)
 		if in.CommaOk {
 			f.Env[in] = &Tuple{Elems: []Value{v, NewTerm("has", m, k)}}
@@ -2142,6 +2379,31 @@ func (x *Exec) binop(in *ssa.BinOp, a, b Value) Value {
 	isString := false
 	if bt, ok := in.X.Type().Underlying().(*types.Basic); ok && bt.Info()&types.IsString != 0 {
 		isString = true // concatenation keeps its order
+	}
+	if isString && in.Op == token.ADD {
+		// concatenation is associative: a chain a+b+c+… is one flat term, adjacent literals joined
+		var parts []Value
+		for _, v := range []Value{a, b} {
+			if t, ok := v.(*Term); ok && t.Op == "+" {
+				parts = append(parts, t.Args...)
+			} else {
+				parts = append(parts, v)
+			}
+		}
+		var flat []Value
+		for _, v := range parts {
+			if c, ok := v.(Const); ok && c.V != nil && c.V.Kind() == constant.String && len(flat) > 0 {
+				if pc, ok := flat[len(flat)-1].(Const); ok && pc.V != nil && pc.V.Kind() == constant.String {
+					flat[len(flat)-1] = Const{V: constant.MakeString(constant.StringVal(pc.V) + constant.StringVal(c.V))}
+					continue
+				}
+			}
+			flat = append(flat, v)
+		}
+		if len(flat) == 1 {
+			return flat[0]
+		}
+		return NewTerm("+", flat...)
 	}
 	if commutative(in.Op) && !isString && a.Key() > b.Key() {
 		a, b = b, a
